@@ -198,16 +198,11 @@ impl Repr {
             // SAFETY: We just checked that `self` is HeapBuffer
             let heap = unsafe { self.as_heap_buffer_mut() };
 
-            // Because `fetch_sub` is already atomic, we should use `Release` ordering to avoid
-            // unexpected drop of the buffer and to ensure that the buffer is unique.
-            if heap.reference_count().fetch_sub(1, Release) == 1 {
+            // We must keep our own reference while we look at the buffer: giving it up first
+            // (decrement, then read) lets another owner free or reallocate the buffer under us,
+            // and leaves the count too low if the copy below fails.
+            if heap.is_unique() {
                 // `heap` is unique, we can reallocate in place.
-
-                // We need to rollback the reference count.
-                // We should use `Acquire` ordering to prevent reordering of the reallocation and
-                // the reference count increment.
-                // This is a same meaning of `fence(Acquire); fech_add(1, Relaxed);`
-                heap.reference_count().fetch_add(1, Acquire);
 
                 if heap.capacity() >= needed_capacity {
                     // No need to reserve more capacity.
@@ -221,10 +216,10 @@ impl Repr {
                 unsafe { heap.realloc(amortized_capacity)? };
             } else {
                 // heap is shared, we need to reallocate a new buffer.
-                // We already decremented the reference count, no need to touch it again.
+                // Copy first; only after the copy succeeded release our reference to the old one.
                 let str = heap.as_str();
                 let new_heap = HeapBuffer::with_additional(str, additional)?;
-                *self = Repr::from_heap(new_heap);
+                self.replace_inner(Repr::from_heap(new_heap));
             }
             Ok(())
         } else if self.is_static_buffer() {
@@ -624,17 +619,12 @@ impl Repr {
             // SAFETY: we just checked self is HeapBuffer
             let heap = unsafe { self.as_heap_buffer_mut() };
 
-            // See `reverse` method for the explanation of the ordering.
-            if heap.reference_count().fetch_sub(1, Release) == 1 {
-                // `heap` is unique, we can modify it in place.
-
-                // See `reverse` method for the explanation of the ordering.
-                heap.reference_count().fetch_add(1, Acquire);
-            } else {
-                // SAFETY: `heap` is shared, we need to create a new buffer.
+            // See `reserve` method: keep our reference until the copy exists.
+            if !heap.is_unique() {
+                // `heap` is shared, we need to create a new buffer.
                 let str = heap.as_str();
                 let new_heap = HeapBuffer::new(str)?;
-                *self = Repr::from_heap(new_heap);
+                self.replace_inner(Repr::from_heap(new_heap));
             }
         } else if self.is_static_buffer() {
             // StaticBuffer is immutable, need to convert to other buffer.
